@@ -326,3 +326,48 @@ package tally
 //@   ensures @elements_from_input forall i int :: 0 <= i && i < len(result) ==> (exists j int :: 0 <= j && j < len(durations) && result[i] == durations[j])
 //@   ensures @input_elements_kept forall j int :: 0 <= j && j < len(durations) ==> (exists i int :: 0 <= i && i < len(result) && result[i] == durations[j])
 //@   ensures @quiet quiet()
+
+//@ pred vb(b Buckets) { dyn(b, ValueBuckets) }
+//@ pred db(b Buckets) { dyn(b, DurationBuckets) }
+//@ pred isPair(p BucketPair) { is(p, bucketPair) }
+
+//@ func BucketPairs
+//@   property C03, C20
+//@   allocs
+//@   witness sv []float64 = values
+//@   witness sd []time.Duration = durations
+//@   ensures @quiet quiet()
+//@   case empty: requires buckets == nil || (is(buckets, ValueBuckets) && len(vb(buckets)) == 0) || (is(buckets, DurationBuckets) && len(db(buckets)) == 0)
+//@     ensures @single len(result) == 1 && isPair(result[0]) && same(lov(result[0]), -math.MaxFloat64) && same(upv(result[0]), math.MaxFloat64) && lod(result[0]) == math.MinInt64 && upd(result[0]) == math.MaxInt64
+//@   case value: requires is(buckets, ValueBuckets) && len(vb(buckets)) >= 1 && (forall k int :: 0 <= k && k < len(vb(buckets)) ==> !isNaN(vb(buckets)[k]) && !isInf(vb(buckets)[k]))
+//@     ensures @len len(result) == len(vb(buckets)) + 1
+//@     ensures @all_pairs forall j int :: 0 <= j && j < len(result) ==> isPair(result[j])
+//@     ensures @first_lower same(lov(result[0]), -math.MaxFloat64)
+//@     ensures @last_upper same(upv(result[len(result)-1]), math.MaxFloat64)
+//@     ensures @tiling forall j int :: 1 <= j && j < len(result) ==> same(lov(result[j]), upv(result[j-1]))
+//@     ensures @uppers_never_decrease forall i, j int :: 0 <= i && i <= j && j < len(result) ==> upv(result[i]) <= upv(result[j])
+//@     ensures @uppers_are_the_sorted_spec len(sv) == len(vb(buckets)) && (forall j int :: 0 <= j && j < len(sv) ==> same(upv(result[j]), sv[j]))
+//@     ensures @bounds_from_spec forall j int :: 0 <= j && j < len(sv) ==> (exists k int :: 0 <= k && k < len(vb(buckets)) && same(sv[j], vb(buckets)[k]))
+//@     ensures @spec_bounds_kept forall k int :: 0 <= k && k < len(vb(buckets)) ==> (exists j int :: 0 <= j && j < len(sv) && same(sv[j], vb(buckets)[k]))
+//@     ensures @caller_slice_untouched forall k int :: 0 <= k && k < len(vb(buckets)) ==> same(vb(buckets)[k], old(vb(buckets)[k]))
+//@   case duration: requires is(buckets, DurationBuckets) && len(db(buckets)) >= 1
+//@     ensures @len len(result) == len(db(buckets)) + 1
+//@     ensures @all_pairs forall j int :: 0 <= j && j < len(result) ==> isPair(result[j])
+//@     ensures @first_lower lod(result[0]) == math.MinInt64
+//@     ensures @last_upper upd(result[len(result)-1]) == math.MaxInt64
+//@     ensures @tiling forall j int :: 1 <= j && j < len(result) ==> lod(result[j]) == upd(result[j-1])
+//@     ensures @uppers_never_decrease forall i, j int :: 0 <= i && i <= j && j < len(result) ==> upd(result[i]) <= upd(result[j])
+//@     ensures @uppers_are_the_sorted_spec len(sd) == len(db(buckets)) && (forall j int :: 0 <= j && j < len(sd) ==> upd(result[j]) == sd[j])
+//@     ensures @bounds_from_spec forall j int :: 0 <= j && j < len(sd) ==> (exists k int :: 0 <= k && k < len(db(buckets)) && sd[j] == db(buckets)[k])
+//@     ensures @spec_bounds_kept forall k int :: 0 <= k && k < len(db(buckets)) ==> (exists j int :: 0 <= j && j < len(sd) && sd[j] == db(buckets)[k])
+//@     ensures @caller_slice_untouched forall k int :: 0 <= k && k < len(db(buckets)) ==> db(buckets)[k] == old(db(buckets)[k])
+//@   loop 1 invariant @idx 1 <= i && i <= (htype == valueHistogramType ? len(vb(buckets)) : len(db(buckets)))
+//@   loop 1 invariant @pairs_shape len(pairs) == i && cap(pairs) >= (htype == valueHistogramType ? len(vb(buckets)) : len(db(buckets))) + 2 && fresh(pairs)
+//@   loop 1 invariant @htype (htype == valueHistogramType && is(buckets, ValueBuckets)) || (htype == durationHistogramType && is(buckets, DurationBuckets))
+//@   loop 1 invariant @sorted_len (htype == valueHistogramType ==> len(values) == len(vb(buckets))) && (htype == durationHistogramType ==> len(durations) == len(db(buckets)))
+//@   loop 1 invariant @built_value htype == valueHistogramType ==> (forall j int :: 0 <= j && j < i ==> isPair(pairs[j]) && valid(pairs[j]) && same(upv(pairs[j]), values[j]) && same(lov(pairs[j]), (j == 0 ? -math.MaxFloat64 : values[j-1])))
+//@   loop 1 invariant @built_duration htype == durationHistogramType ==> (forall j int :: 0 <= j && j < i ==> isPair(pairs[j]) && valid(pairs[j]) && upd(pairs[j]) == durations[j] && lod(pairs[j]) == (j == 0 ? math.MinInt64 : durations[j-1]))
+//@   loop 1 invariant @quiet quiet()
+//@   loop 1 invariant @values_finite htype == valueHistogramType ==> (forall j int :: 0 <= j && j < len(values) ==> !isNaN(values[j]) && !isInf(values[j]))
+//@   loop 1 invariant @values_sorted htype == valueHistogramType ==> (forall a, b int :: 0 <= a && a <= b && b < len(values) ==> values[a] <= values[b])
+//@   loop 1 invariant @durations_sorted htype == durationHistogramType ==> (forall a, b int :: 0 <= a && a <= b && b < len(durations) ==> durations[a] <= durations[b])
